@@ -1,12 +1,15 @@
 """Bytecode part of C03 (serves C01/C02):  run_part(ck, quick) -> list of (what, replay_obj).
 
-P: coq/theories/Props/C03_bvm.v over Bvm/Model.v (executable model of runtime/vm.rs `Machine::execute` on the real
-   compiler's bytecode, parametric in the arithmetic) and Bvm/Verify.v (a bytecode verifier in the spirit of the JVM
-   verifier): a program accepted by `verify` never faults in the model VM - on any input, with any arithmetic, for any
-   number of samples and any fuel; dsp leaves exactly its declared number of output words; the state cursor is back at 0.
+P: coq/theories/Props/C03_bvm.v over Bvm/Model.v + Bvm/XModel.v (executable model of runtime/vm.rs `Machine::execute` on the
+   real compiler's bytecode, parametric in the arithmetic; XModel adds closures, upvalue cells, heap objects, per-closure
+   state storages) and Bvm/Verify.v + Bvm/XVerify.v (a bytecode verifier in the spirit of the JVM verifier): a program
+   accepted by `verify` never faults in the model VM - on any input, with any arithmetic, for any number of samples and any
+   fuel; dsp leaves exactly its declared number of output words; the state cursor is back at 0.  With closures (`xverify`)
+   the same holds except for faults of the dynamic class (stale handles, ill-fitting indirect callees, ...; partial).
 C: harness/lang/src/bin/bc_dump.rs compiles every program with the REAL compiler, dumps the complete `Program` the real
-   VM executes and runs it on the real VM; ocaml/bvm_drv.ml runs the extracted model on the SAME dumped bytecode:
-   outputs (bit patterns), flat state words and cursor must agree after every sample.
+   VM executes (upindexes and the type table included) and runs it on the real VM; ocaml/bvm_drv.ml runs the extracted
+   model on the SAME dumped bytecode: outputs (bit patterns), flat state words, cursor, closures.len() and heap.len() must
+   agree after every sample.
 S: the extracted verifier is run on the dump of every generated / corpus / shipped program on every run.  A rejection of
    bytecode the compiler emitted is a concrete failing program (the verdict covers ALL paths, not only those a run takes).
    Programs that use instructions outside the supported subset are counted `outside_subset`.
@@ -30,9 +33,26 @@ EXT_CODES = {"_mimium_getnow": (0, 0), "_mimium_getsamplerate": (1, 0),
              "neg": (10, 1), "abs": (11, 1), "sqrt": (12, 1), "round": (13, 1), "floor": (14, 1), "ceil": (15, 1),
              "not": (16, 1), "sin": (17, 1), "cos": (18, 1), "tan": (19, 1), "sinh": (20, 1), "cosh": (21, 1),
              "tanh": (22, 1), "asin": (23, 1), "acos": (24, 1), "atan": (25, 1),
+             "probe": (26, 1), "probeln": (27, 1),      # print the value and return it
              "add": (40, 2), "sub": (41, 2), "mult": (42, 2), "div": (43, 2), "modulo": (44, 2), "eq": (45, 2),
              "ne": (46, 2), "lt": (47, 2), "le": (48, 2), "gt": (49, 2), "ge": (50, 2), "atan2": (51, 2),
              "pow": (52, 2), "min": (53, 2), "max": (54, 2)}
+
+# builtins on Machine.arrays: name -> op of Bvm/XModel.v arr_builtin (the `$arityN` specialisations: op + 10, width N)
+ARRAY_EXT = {"len": 0, "split_head": 1, "split_tail": 2, "prepend": 3, "append": 4}
+
+
+def ext_code(name):
+    """(code, arity) of an entry of ext_fun_table for the model driver"""
+    if name in EXT_CODES:
+        return EXT_CODES[name]
+    if name in ARRAY_EXT:
+        return (200 + ARRAY_EXT[name], 0)
+    m = re.match(r"(split_head|split_tail|prepend|append)\$arity(\d+)$", name)
+    if m:
+        return (200 + 10 + ARRAY_EXT[m.group(1)], int(m.group(2)))
+    return (255, 0)
+
 
 # bytecode::Instruction as the model knows it: variant -> number of operands (pinned against bytecode.rs on every run)
 MODEL_INSTRS = {
@@ -49,7 +69,16 @@ SUPPORTED = {"Move", "MoveConst", "MoveImmF", "MoveRange", "Call", "CallExtFun",
              "JmpTable", "GetGlobal", "SetGlobal", "GetState", "SetState", "PushStatePos", "PopStatePos", "Delay", "Mem",
              "AddF", "SubF", "MulF", "DivF", "ModF", "PowF", "Eq", "Ne", "Gt", "Ge", "Lt", "Le", "And", "Or",
              "NegF", "AbsF", "SqrtF", "SinF", "CosF", "LogF", "Not", "CastFtoI", "CastItoF",
-             "CloneUserSum", "ReleaseUserSum"}     # the last two only on types without boxed references
+             "CloneUserSum", "ReleaseUserSum",     # these two only on types without boxed references
+             # the closure / upvalue / heap layer (Bvm/XModel.v)
+             "Closure", "Close", "CallCls", "MakeHeapClosure", "CloseHeapClosure", "CloneHeap", "CallIndirect",
+             "GetUpValue", "SetUpValue", "BoxAlloc", "BoxLoad", "BoxClone", "BoxRelease", "BoxStore",
+             "AllocArray", "GetArrayElem", "SetArrayElem"}
+# the instructions the verifier accepts: Bvm/XVerify.v covers every instruction the model covers; OLD_SUBSET is what the
+# first verifier (Bvm/Verify.v) covered (statistics only)
+VERIFIER_SUPPORTED = SUPPORTED - {"AllocArray", "GetArrayElem", "SetArrayElem"}
+OLD_SUBSET = SUPPORTED - {"Closure", "Close", "CallCls", "MakeHeapClosure", "CloseHeapClosure", "CloneHeap", "CallIndirect",
+                                  "GetUpValue", "SetUpValue", "BoxAlloc", "BoxLoad", "BoxClone", "BoxRelease", "BoxStore"}
 
 
 # ------------------------------------------------------------------------------------------------
@@ -142,16 +171,46 @@ def prog_tokens(prog):
         toks.append(str(len(f["jump_tables"])))
         for t in f["jump_tables"]:
             toks += [str(t["min"]), str(len(t["offsets"]))] + [str(o) for o in t["offsets"]]
+        ups = f.get("up", [])
+        toks.append(str(len(ups)))
+        for u in ups:
+            toks += [str(u[0]), str(u[1]), "1" if u[2] else "0"]
     toks.append(str(sum(prog["globals"])))
     toks.append(str(len(prog["ext"])))
     for name in prog["ext"]:
-        code, ar = EXT_CODES.get(name, (255, 0))
+        code, ar = ext_code(name)
         toks += [str(code), str(ar)]
     toks.append(str(prog["dsp"] if prog["dsp"] is not None else -1))
     tp = prog.get("types_plain", [])
     toks.append(str(len(tp)))
     toks += ["1" if b else "0" for b in tp]
+    trees = prog.get("types", [])
+    toks.append(str(len(trees)))
+    for t in trees:
+        toks += type_tokens(t)
     return toks
+
+
+def type_tokens(t):
+    """["P"] | ["B", inner] | ["S", name, [payload|null..]] | ["T", [[size, elem]..]] | ["A", name] in prefix notation"""
+    k = t[0]
+    if k == "P":
+        return ["P"]
+    if k == "B":
+        return ["B"] + type_tokens(t[1])
+    if k == "A":
+        return ["A", str(t[1])]
+    if k == "S":
+        out = ["S", str(t[1]), str(len(t[2]))]
+        for v in t[2]:
+            out += ["0"] if v is None else ["1"] + type_tokens(v)
+        return out
+    if k == "T":
+        out = ["T", str(len(t[1]))]
+        for sz, e in t[1]:
+            out += [str(sz)] + type_tokens(e)
+        return out
+    raise ValueError("type tree the model does not know: %r" % (t,))
 
 
 def f2bits(x):
@@ -170,16 +229,18 @@ def used_instrs(prog):
     return {ins[0] for f in prog["funs"] for ins in f["code"]}
 
 
-def outside_subset(prog):
-    """names of the instructions / external functions of this program the model gives no meaning to"""
-    out = sorted(used_instrs(prog) - SUPPORTED)
+def outside_subset(prog, supported=None):
+    """names of the instructions / external functions of this program the model (default) / the verifier gives no meaning to"""
+    out = sorted(used_instrs(prog) - (SUPPORTED if supported is None else supported))
     tp = prog.get("types_plain", [])
     for f in prog["funs"]:
         for ins in f["code"]:
-            if ins[0] in ("CloneUserSum", "ReleaseUserSum") and not (ins[3] < len(tp) and tp[ins[3]]) and "boxed-sum-type" not in out:
+            if ins[0] in ("CloneUserSum", "ReleaseUserSum") and not (ins[3] < len(tp) and tp[ins[3]]) \
+                    and not ins[3] < len(prog.get("types", [])) and "boxed-sum-type" not in out:
                 out.append("boxed-sum-type")
     if "CallExtFun" in used_instrs(prog):
-        out += sorted("ext:" + n for n in prog["ext"] if n not in EXT_CODES)
+        verifier = supported is not None and "AllocArray" not in supported       # the verifier knows no array builtin
+        out += sorted("ext:" + n for n in prog["ext"] if ext_code(n)[0] == 255 or (verifier and ext_code(n)[0] >= 200))
     return out
 
 
@@ -193,7 +254,9 @@ def parse_outcome(s):
     if t[0] == "R":
         o = t.index("O")
         w = t.index("W")
-        return {"kind": "ret", "n": int(t[1]), "pos": int(t[2]), "out": [int(x) for x in t[o + 1:w]], "words": [int(x) for x in t[w + 1:]]}
+        c = t.index("C")
+        return {"kind": "ret", "n": int(t[1]), "pos": int(t[2]), "out": [int(x) for x in t[o + 1:w]], "words": [int(x) for x in t[w + 1:c]],
+                "ncls": int(t[c + 1]), "nheap": int(t[c + 2])}
     if t[0] == "F":
         return {"kind": "fault", "what": t[1]}
     if t[0] == "U":
@@ -201,6 +264,22 @@ def parse_outcome(s):
     if t[0] == "T":
         return {"kind": "fuel"}
     return {"kind": "?", "what": s}
+
+
+def verdict_fields(detail):
+    """'B <n|-> S <stop>' of an accepted program -> (fuel bound or None, where the instrumented semantics stopped or '-')"""
+    t = (detail or "").split()
+    bound, stop = None, None
+    if "B" in t and t.index("B") + 1 < len(t) and t[t.index("B") + 1] != "-":
+        bound = int(t[t.index("B") + 1])
+    if "S" in t:
+        stop = " ".join(t[t.index("S") + 1:])
+    return bound, stop
+
+
+def dyn_stop(stop):
+    """the instrumented semantics may stop only with a fault of the dynamic class or out of fuel"""
+    return stop is None or stop == "-" or stop == "T" or stop.startswith("F Dyn")
 
 
 def parse_answer(line):
@@ -282,6 +361,8 @@ def compare(dump, ans):
         return "cursor after main: vm %s model %s" % (vm_main["pos"], mm["pos"])
     if vm_main["words"] != mm["words"]:
         return "state words after main differ"
+    if "ncls" in vm_main and (vm_main["ncls"], vm_main["nheap"]) != (mm["ncls"], mm["nheap"]):
+        return "after main: closures.len()/heap.len() vm %s/%s model %s/%s" % (vm_main["ncls"], vm_main["nheap"], mm["ncls"], mm["nheap"])
     vs = dump.get("samples", [])
     ms = ans.get("samples", [])
     for t, v in enumerate(vs):
@@ -309,6 +390,8 @@ def compare(dump, ans):
         if v["words"] != m["words"]:
             d = [i for i, (a, b) in enumerate(zip(v["words"], m["words"])) if a != b]
             return "sample %d: state words differ (lengths %d/%d, first at %s)" % (t, len(v["words"]), len(m["words"]), d[:1])
+        if "ncls" in v and (v["ncls"], v["nheap"]) != (m["ncls"], m["nheap"]):
+            return "sample %d: closures.len()/heap.len() vm %s/%s model %s/%s" % (t, v["ncls"], v["nheap"], m["ncls"], m["nheap"])
     return None
 
 
@@ -458,8 +541,51 @@ def corpus_sources(nsamples):
     d = os.path.join(VERIF, "corpus", "C03", "bvm")
     out = []
     for f in sorted(glob.glob(os.path.join(d, "*.mmm"))):
-        out.append({"kind": "corpus:" + os.path.basename(f), "src": open(f).read(), "n": nsamples})
+        rq = {"kind": "corpus:" + os.path.basename(f), "src": open(f).read(), "n": nsamples, "sched": True}
+        side = f[:-4] + ".inputs.json"          # optional: the dsp input rows of the witness
+        if os.path.exists(side):
+            rq["inputs"] = json.load(open(side))
+        out.append(rq)
     return out
+
+
+CLOSURE_SNIPPETS = [
+    "fn mk(n){ |x| { n + x + mem(x) } }\nfn dsp(){ let f = mk(3.0)\n let y = 2.0\n let g = | | { y = y + 1.0\n y }\n f(now) + g() }",
+    "fn adder(n){ |x| x + n }\nlet add3 = adder(3.0)\nfn dsp(){ add3(now) }",
+    "fn counter(){ let c = 0.0\n | | { c = c + 1.0\n c } }\nlet k = counter()\nfn dsp(){ k() + k() }",
+    "fn twice(f, x){ f(f(x)) }\nfn dsp(){ twice(|v| v * 2.0, now) + twice(sin, now) }",
+    "fn osc(f){ (self + f) % 1.0 }\nfn run(g){ g(0.25) }\nfn dsp(){ run(osc) + run(|q| { mem(q) + q }) }",
+    "fn dsp(){ let a = now\n let f = |x| { let g = |y| { a + x + y }\n g(1.0) }\n f(2.0) }",
+    "fn compose(f, g){ |x| g(f(x)) }\nlet h = compose(|x| x + 1.0, |x| x * 3.0)\nfn dsp(){ h(now) }",
+    "fn dsp(){ let (p, q) = (|x| x + 1.0, |x| x - 1.0)\n p(q(now)) }",
+    "fn dsp(){ let v = 4.0\n (|q| { if (q) { let t = (v, v, v)\n t.0 * t.2 } else { v + v } })(now) }",
+    "fn mk(){ let s = 0.0\n (| | { s = s + 1.0\n s }, | | { s = s + 10.0\n s }) }\nlet (i1, i10) = mk()\nfn dsp(){ i1() + i10() }",
+]
+
+
+def closure_sources(rng, n, nsamples):
+    """programs with closures: the generators of C12 (closure / heap life cycle snippets), lib/lmmx_gen.py (closures, HOF,
+    pipes, defaults, tuples, records) and C18 (XGen), plus fixed snippets"""
+    import importlib
+    import lmmx, lmmx_gen
+    here = os.path.dirname(os.path.abspath(__file__))
+    if here not in sys.path:
+        sys.path.insert(0, here)
+    C12 = importlib.import_module("C12")
+    C18 = importlib.import_module("C18")
+    reqs = [{"kind": "closure-fixed", "src": s, "n": nsamples} for s in CLOSURE_SNIPPETS]
+    for i in range(n):
+        g = C12.gen_program(rng.fork(("c12", i)))
+        reqs.append({"kind": "c12gen", "src": g["src"], "n": nsamples, "sched": True})
+    for (p, rows, _dyn) in lmmx_gen.gen_cases(rng.fork("lmmx"), n, nsamples):
+        reqs.append({"kind": "lmmxgen", "src": lmmx.pp_prog(p), "n": nsamples, "inputs": rows})
+    for i in range(n):
+        r = rng.fork(("c18", i))
+        src, has_in = C18.XGen(r).program()
+        rin = r.fork("in")
+        reqs.append({"kind": "c18gen", "src": src, "n": nsamples,
+                     "inputs": [[rin.choice(C18.XIN)] for _ in range(nsamples)] if has_in else []})
+    return reqs
 
 
 def shipped_sources(nsamples):
@@ -516,6 +642,11 @@ def rejection_site(prog, detail):
 
 
 KNOWN_CLASS_UNIT = "bvm-unit-value-used-as-number"
+# GetUpValue of an OPEN upvalue whose destination lies above the stack top (or several words at the top): the source slice
+# points into the stack that set_vec_range is about to grow (Vec::resize / push may reallocate): use-after-free read
+KNOWN_CLASS_ALIAS = "bvm-open-upvalue-read-grows-the-stack"
+# GetArrayElem / SetArrayElem on an array of length 0: vm.rs `continue`s the interpreter loop without `pcounter += increment`
+KNOWN_CLASS_EMPTY_ARRAY = "bvm-empty-array-index-reexecutes"
 
 
 def unit_operand_class(prog, detail):
@@ -535,6 +666,16 @@ def unit_operand_class(prog, detail):
         if c[0] in ("Call", "CallExtFun"):
             return KNOWN_CLASS_UNIT if (c[3] == 0 and c[1] in srcs) else None
     return None
+
+
+def alias_rejection(prog, detail):
+    """the first failing check is a GetUpValue with a valid upvalue index: the only other reason `xflow` has to reject it is
+    that the write could grow the stack before the source (a slice into the stack when the cell is open) has been read"""
+    site = rejection_site(prog, detail)
+    if not site or not site[2] or site[2][0] != "GetUpValue":
+        return False
+    f = prog["funs"][site[0]]
+    return site[2][2] < len(f.get("up", []))
 
 
 def rejection_class(prog, detail):
@@ -637,6 +778,8 @@ def dump_well_formed(r):
                     return False
         if not all(isinstance(g, int) for g in pr["globals"]) or not all(isinstance(b, bool) for b in pr.get("types_plain", [])):
             return False
+        for t in pr.get("types", []):
+            type_tokens(t)
         mn = r.get("main")
         if mn is not None and "panic" not in mn:
             if not (isinstance(mn["pos"], int) and all(isinstance(w, int) for w in mn["words"])):
@@ -648,7 +791,7 @@ def dump_well_formed(r):
                     and all(isinstance(h, str) and (h == "NaN" or len(h) == 16) for h in sm["out"])):
                 return False
         return True
-    except (KeyError, TypeError, ValueError, AttributeError):
+    except (KeyError, TypeError, ValueError, AttributeError, IndexError):
         return False
 
 
@@ -678,6 +821,7 @@ def run_part(ck, quick=True):
     reqs = corpus_sources(ns) + fixed_sources(ns) + gen_sources(rng, 1200 if quick else 12000, ns)
     reqs += [{"kind": "match", "src": lmmm.gen_match_source(rng.fork(("match", i))), "n": ns} for i in range(250 if quick else 3000)]
     reqs += [{"kind": "float", "src": gen_float_source(rng.fork(("float", i))), "n": ns} for i in range(900 if quick else 9000)]
+    reqs += closure_sources(rng.fork("closures"), 350 if quick else 3500, ns)
     reqs += shipped_sources(4 if quick else 16)
     res = lmmm.run_impl(impl, [{k: v for k, v in r.items() if k != "kind"} for r in reqs], timeout_per_batch=400)
     t_impl = time.time()
@@ -688,7 +832,10 @@ def run_part(ck, quick=True):
            "accepted_shipped": 0, "inside_subset_shipped": 0, "dumped_shipped": 0, "vm_property_checked": 0,
            "verifier_covers_functions": 0, "out_of_fuel": 0, "witnesses_reproduced": 0,
            "with_fuel_bound": 0, "without_fuel_bound": 0, "max_fuel_bound": 0, "rejected_known_class_unit_operand": 0,
-           "dump_garbled_in_shared_process": 0}
+           "dump_garbled_in_shared_process": 0, "closure_programs": 0, "closure_programs_agree": 0,
+           "stack_alias_hazard": 0, "stack_alias_hazard_vm_differs": 0, "inside_model_shipped": 0, "outside_model": 0,
+           "outside_model_by": {}, "accepted_closure_programs": 0, "accepted_dynamic_stop": {},
+           "rejected_known_class_open_upvalue": 0}
     lines, idx = [], []
     for i, (rq, r) in enumerate(zip(reqs, res)):
         if r is None or "crash" in r:
@@ -767,7 +914,34 @@ def run_part(ck, quick=True):
             continue
         # (C) model = real VM
         c = compare(r, a)
+        closure_prog = bool(used_instrs(prog) & (SUPPORTED - OLD_SUBSET))
+        cov["closure_programs"] += closure_prog
+        out_model = outside_subset(prog)
+        if out_model:
+            cov["outside_model"] += 1
+            for o in out_model:
+                cov["outside_model_by"][o] = cov["outside_model_by"].get(o, 0) + 1
+        else:
+            cov["inside_model_shipped"] += shipped
+        if isinstance(c, tuple) and c[1].endswith("UnsupStackAlias"):
+            # the model stops where the behaviour of the real VM is undefined (GetUpValue of an open upvalue whose write
+            # grows the stack: use-after-free read in set_vec_range); known finding, reported under its id when listed
+            cov["stack_alias_hazard"] += 1
+            if rq["kind"].startswith("corpus:finding"):
+                cov["witnesses_reproduced"] += 1
+            fid = next((f for f in known.values() if f.get("cls") == KNOWN_CLASS_ALIAS), None)
+            if fid:
+                ck.known(fid, "bytecode VM: %s reads an open upvalue into registers above the stack top: %s" % (rq["kind"], rq["src"].replace("\n", " ")[:120]))
+        if rq["kind"].startswith("corpus:finding_empty_array") and any("panic" in sm for sm in r.get("samples", [])) \
+                and any(o and o["kind"] == "fault" for o in a.get("samples", [])):
+            # GetArrayElem on an empty array: `continue` without advancing the program counter; with dst = arr the second
+            # execution panics "Invalid ArrayIdx: raw_id=0" (model: DynHandle), else the VM hangs
+            cov["witnesses_reproduced"] += 1
+            fid = next((f for f in known.values() if f.get("cls") == KNOWN_CLASS_EMPTY_ARRAY), None)
+            if fid:
+                ck.known(fid, "bytecode VM: indexing an empty array re-executes GetArrayElem: " + rq["src"].replace("\n", " ")[:120])
         if c is None:
+            cov["closure_programs_agree"] += closure_prog
             cov["model_agrees"] += 1
             cov["samples_compared"] += len(r.get("samples", []))
             if i % 97 == 5:
@@ -780,7 +954,7 @@ def run_part(ck, quick=True):
             report("bytecode VM: model (Bvm/Model.v) and the real VM disagree on the compiler's bytecode: " + c, i, a)
             continue
         # (S) the verifier on the real bytecode
-        out = outside_subset(prog)
+        out = outside_subset(prog, VERIFIER_SUPPORTED)
         if out:
             cov["outside_subset"] += 1
             for o in out:
@@ -795,24 +969,51 @@ def run_part(ck, quick=True):
             cov["accepted"] += 1
             cov["accepted_shipped"] += shipped
             cov["verifier_covers_functions"] += len(prog["funs"])
-            # the theorem's conclusion, evaluated on the REAL VM's answers
+            cov["accepted_closure_programs"] += closure_prog
+            bound, stop = verdict_fields(a.get("detail"))
+            # the theorem, end to end: the extracted instrumented semantics on bytecode the extracted verifier accepts stops
+            # only with a fault of the dynamic class (C03_bvm_closures_verified_safe_partial)
+            if not dyn_stop(stop):
+                report("bytecode VM: the extracted instrumented model stops with '%s' on bytecode its verifier accepts: theorem "
+                       "C03_bvm_closures_verified_safe_partial and the extracted code no longer fit" % stop, i, a)
+                continue
+            model_outs = [o for o in a.get("samples", []) + [a.get("main")] if o]
+            mfault = next((o for o in model_outs if o["kind"] in ("fault", "unsupported")), None)
+            if stop not in (None, "-"):
+                # a dynamic check fired: a stale handle (C12's subject) or one of the checks only the instrumentation makes
+                cov["accepted_dynamic_stop"][stop] = cov["accepted_dynamic_stop"].get(stop, 0) + 1
+                if mfault and not (mfault["kind"] == "fault" and mfault["what"].startswith("Dyn")):
+                    # allowed only after a strict-only stop (then the two semantics may part, C03_bvm_strict_agrees)
+                    if stop not in ("F DynSignature", "F DynReentry", "F DynOpenWrite", "F DynCellWidth"):
+                        report("bytecode VM: the transcription faults (%s) on accepted bytecode although the instrumented semantics "
+                               "stopped with '%s'" % (mfault.get("what"), stop), i, a)
+                continue
+            if mfault:
+                report("bytecode VM: the extracted model faults (%s) on bytecode its verifier accepts although the instrumented run "
+                       "returned: C03_bvm_strict_agrees and the extracted code no longer fit" % mfault.get("what"), i, a)
+                continue
+            # no dynamic check fired: the theorem's conclusion, evaluated on the REAL VM's answers
             pv = property_on_vm(r, prog)
             cov["vm_property_checked"] += 1
             if pv:
                 report("bytecode VM: bytecode accepted by the verified verifier misbehaves on the real VM: " + pv, i, a)
-            bound = a.get("detail", "").split()
-            if len(bound) == 2 and bound[0] == "B" and bound[1] != "-":
+            if bound is not None:
                 # the model ran with EXACTLY the checked fuel bound (theorem C03_bvm_fuel): it must not run out
                 cov["with_fuel_bound"] += 1
-                cov["max_fuel_bound"] = max(cov["max_fuel_bound"], int(bound[1]))
-                if any(s and s["kind"] == "fuel" for s in a.get("samples", []) + [a.get("main")]):
+                cov["max_fuel_bound"] = max(cov["max_fuel_bound"], bound)
+                if any(o["kind"] == "fuel" for o in model_outs):
                     report("bytecode VM: the extracted model runs out of the fuel bound that term_ok certifies (C03_bvm_fuel): extraction or driver broken", i, a)
             else:
                 cov["without_fuel_bound"] += 1
-            for s in a.get("samples", []) + [a.get("main")]:
-                if s and s["kind"] in ("fault", "unsupported"):
-                    report("bytecode VM: the extracted model faults on bytecode its verifier accepts (%s): extraction or driver broken" % s.get("what"), i, a)
-                    break
+            continue
+        if alias_rejection(prog, a.get("detail", "")):
+            cov["rejected_known_class_open_upvalue"] += 1
+            if rq["kind"].startswith("corpus:finding") and not (isinstance(c, tuple) and c[1].endswith("UnsupStackAlias")):
+                cov["witnesses_reproduced"] += 1
+            fid = next((f for f in known.values() if f.get("cls") == KNOWN_CLASS_ALIAS), None)
+            if fid:
+                ck.known(fid, "bytecode verifier: %s has a GetUpValue whose write may grow the stack before the open cell is read: %s"
+                         % (rq["kind"], rq["src"].replace("\n", " ")[:120]))
             continue
         cls = rejection_class(prog, a.get("detail", "")) or unit_operand_class(prog, a.get("detail", ""))
         if cls == KNOWN_CLASS_UNIT:
@@ -837,7 +1038,7 @@ def run_part(ck, quick=True):
     # the extracted verifier still accepts must run in the extracted model without fault (C03_bvm_verified_safe), so a
     # fault here means extraction / driver / statement drifted apart.  No real VM involved.
     mrng = rng.fork("mutants")
-    pool = [i for i, a in zip(idx, ans) if a.get("verdict") == "1" and not outside_subset(res[i]["prog"])]
+    pool = [i for i, a in zip(idx, ans) if a.get("verdict") == "1" and not outside_subset(res[i]["prog"], VERIFIER_SUPPORTED)]
     mlines, mmeta = [], []
     for k in range(min(len(pool), 600 if quick else 6000)):
         i = pool[mrng.below(len(pool))]
@@ -869,11 +1070,14 @@ def run_part(ck, quick=True):
         faulty = [o for o in outs if o and o["kind"] in ("fault", "unsupported")]
         if a.get("verdict") == "1":
             mt["still_accepted"] += 1
-            if faulty and reported <= 6:
+            _b, stop = verdict_fields(a.get("detail"))
+            if not dyn_stop(stop) and reported <= 6:
                 reported += 1
-                viol.append(("bytecode VM: the extracted verifier accepts a perturbed bytecode on which the extracted model faults (%s): "
-                             "theorem C03_bvm_verified_safe and the extracted code no longer fit" % faulty[0].get("what"),
+                viol.append(("bytecode VM: the extracted verifier accepts a perturbed bytecode on which the extracted instrumented model "
+                             "stops with '%s': theorem C03_bvm_closures_verified_safe_partial and the extracted code no longer fit" % stop,
                              {"source": reqs[i]["src"], "function": fi, "pc": pc, "perturbed_instruction": ins}))
+            elif stop not in (None, "-"):
+                mt["accepted_dynamic_stop"] = mt.get("accepted_dynamic_stop", 0) + 1
         else:
             mt["rejected"] += 1
             mt["rejected_and_model_faults" if faulty else "rejected_no_fault_seen"] += 1
